@@ -4,6 +4,7 @@ C04 - aggregations group, label and reduce exactly as the reference engine.
 import PromqlVerif.Proofs.Agg
 import PromqlVerif.Proofs.HeapPerm
 import PromqlVerif.Proofs.AccProof
+import PromqlVerif.Proofs.HeapOrder
 namespace PromqlVerif.C04
 open PromqlVerif Val
 
@@ -126,5 +127,28 @@ example : CountLaw Int := by
   intro n
   show ((n : Int) + 1 : Int) = ((n + 1 : Nat) : Int)
   omega
+
+/-- **topk / bottomk keep the extreme samples**: for a NaN-free group and a value order that is a
+strict weak order, no sample the engine's bounded heap keeps is strictly smaller (topk; larger for
+bottomk) than one it dropped - for every `k ≥ 1` and every arrival order. With
+`topk_keeps_min_k_n` and `topk_keeps_group_samples`: the selection is the `k` largest / smallest
+samples of the group, ties broken arbitrarily (which is also all the reference engine promises). -/
+theorem topk_keeps_the_extremes {α : Type} {P : V → Prop} (L : LtLaws P) (top : Bool) (k : Nat) (hk : 1 ≤ k)
+    (items : List (α × V)) (hitems : ∀ x ∈ items, P x.2 ∧ isNaN x.2 = false) :
+    ∃ dropped, (kSelect top k items ++ dropped).Perm items ∧
+      ∀ d ∈ dropped, ∀ y ∈ kSelect top k items, less top y.2 d.2 = false :=
+  kSelect_extreme L top k hk items hitems
+
+/-- the order laws hold for exact arithmetic -/
+example : LtLaws (V := Int) (fun _ => True) where
+  asymm := by
+    intro a b _ _ h
+    have h' : a < b := by simpa [Val.lt] using h
+    simp [Val.lt]; omega
+  negtrans := by
+    intro a b c _ _ _ h1 h2
+    have e1 : ¬ a < b := by simpa [Val.lt] using h1
+    have e2 : ¬ b < c := by simpa [Val.lt] using h2
+    simp [Val.lt]; omega
 
 end PromqlVerif.C04
